@@ -1,5 +1,4 @@
 import QcoVerif.Lemmas.Kernel
-import QcoVerif.Lemmas.KernelSrc
 /-
   C12 — index kernels tile the acquisition index range without gaps or overlap.
 
@@ -474,335 +473,5 @@ example : ∃ K, ExpKernel.new? [2, 0] true false [1] [10] 2 = some K ∧ (11 : 
     estimate [2, 0] true false 11 = .assertionError ∧ estimate [2, 0] true false 20 = .value 4 :=
   ⟨_, rfl, by decide, rfl, rfl⟩
 
-
-/-! ### tie to the SOURCE TEXT (DESIGN.md §2.3b)
-
-`Gen.PySrc.*` is the mini-Python syntax of the functions of `kernel_repetition_code.py`, `kernel_calibration.py`,
-`intrf_index_strategy.py`, `intrf_index_kernel.py`, regenerated from the source text on every run (tools/pylean.py).  Each
-theorem below runs the interpreter `Py.callFn` (Model/PyLang.lean) on that syntax, for ALL kernels / elements / counts, with a
-`self` object whose fields are the dataclass fields and whose other members have the MODEL's values (Lemmas/KernelSrc.lean), and
-states that the result is the model's value.  The members depend on each other acyclicly (start_index ← strategy;
-_exclusive_start ← start; stop ← _exclusive_start, deltas; getters ← _exclusive_start, deltas, id lists; contains ← getters;
-experiment kernel ← kernels), so together they say that every member's source text computes what the model says.  A change of
-the source text changes `Gen.PySrc` and the corresponding theorem no longer compiles. -/
-
-section SourceTie
-open Qco Qco.Py Qco.Gen.PySrc Qco.KernelSrc
-
-theorem fixed_get_index_matches_source (i : Int) (task : Val) :
-    callFn {} FixedIndexStrategy_get_index [strategyObj (.fixed i), task] = .int (Strategy.getIndex (.fixed i)) := by
-  py_simp [FixedIndexStrategy_get_index, strategyObj, Strategy.getIndex]
-
-theorem relative_get_index_matches_source (st : Int) (task : Val) :
-    callFn {} RelativeIndexStrategy_get_index [strategyObj (.relative st), task] = .int (Strategy.getIndex (.relative st)) := by
-  py_simp [RelativeIndexStrategy_get_index, strategyObj, Strategy.getIndex]
-
-theorem rep_start_index_matches_source (k : RepKernel) :
-    callFn fieldMethods RepKernel_start_index [repSelf k] = .int k.startIndex := by
-  cases hs : k.strategy <;>
-  py_simp [RepKernel_start_index, repSelf, repFields, fieldMethods, strategyObj, RepKernel.startIndex, hs]
-
-theorem rep_exclusive_start_matches_source (k : RepKernel) :
-    callFn {} RepKernel_exclusive_start_index [repSelf k] = .int k.exclStart := by
-  py_simp [RepKernel_exclusive_start_index, repSelf, repFields, RepKernel.exclStart]
-
-theorem rep_delta_heralded_matches_source (k : RepKernel) :
-    callFn {} RepKernel_delta_heralded [repSelf k] = .int k.dHer := by
-  cases h : k.heralded <;> py_simp [RepKernel_delta_heralded, repSelf, repFields, RepKernel.dHer, h]
-
-theorem rep_delta_stabilizer_matches_source (k : RepKernel) :
-    callFn {} RepKernel_delta_stabilizer [repSelf k] = .int k.dStab := by
-  py_simp [RepKernel_delta_stabilizer, repSelf, repFields, RepKernel.dStab]
-  omega
-
-theorem rep_delta_final_matches_source (k : RepKernel) :
-    callFn {} RepKernel_delta_final [repSelf k] = .int k.dFinal := by
-  py_simp [RepKernel_delta_final, repSelf, repFields, RepKernel.dFinal]
-
-theorem rep_stop_index_matches_source (k : RepKernel) :
-    callFn {} RepKernel_stop_index [repSelf k] = .int k.stopIndex := by
-  py_simp [RepKernel_stop_index, repSelf, repFields, RepKernel.stopIndex]
-
-theorem rep_involved_matches_source (k : RepKernel) :
-    callFn {} RepKernel_involved_qubit_ids [repSelf k] = nats k.involved := by
-  py_simp [RepKernel_involved_qubit_ids, repSelf, repFields, RepKernel.involved]
-
-theorem rep_heralded_index_matches_source (k : RepKernel) (e : QId) :
-    callFn {} RepKernel_heralded_index [repSelf k, .int e] = ints (k.heraldedIdx e) := by
-  unfold RepKernel.heraldedIdx
-  cases h : k.heralded <;> by_cases hm : e ∈ k.involved <;>
-  py_simp [RepKernel_heralded_index, repSelf, repFields, h, hm]
-
-theorem rep_final_index_matches_source (k : RepKernel) (e : QId) :
-    callFn {} RepKernel_final_index [repSelf k, .int e] = ints (k.finalIdx e) := by
-  unfold RepKernel.finalIdx
-  by_cases hm : e ∈ k.involved <;> by_cases ha : e ∈ k.ancIds <;> cases hb : (k.nr == 0) <;>
-  (first
-    | (have h0 : k.nr ≠ 0 := by simpa using hb
-       py_simp [RepKernel_final_index, repSelf, repFields, hm, ha, h0, hb])
-    | (have h0 : k.nr = 0 := by simpa using hb
-       py_simp [RepKernel_final_index, repSelf, repFields, hm, ha, h0]))
-
-theorem rep_stabilizer_indices_matches_source (k : RepKernel) (e : QId) :
-    callFn {} RepKernel_stabilizer_indices [repSelf k, .int e] = ints (k.stabIdx e) := by
-  unfold RepKernel.stabIdx
-  by_cases ha : e ∈ k.ancIds
-  · cases hb : (k.nr == 1)
-    · have h1 : k.nr ≠ 1 := by simpa using hb
-      have hr : rangeVals 1 (k.nr : Int) = (List.range (k.nr - 1)).map (fun (i : Nat) => Val.int (1 + i)) := by
-        by_cases h0 : k.nr = 0
-        · simp [h0, rangeVals]
-        · have : (k.nr : Int) = 1 + ((k.nr - 1 : Nat) : Int) := by omega
-          rw [this, rangeVals_eq]
-      py_simp [RepKernel_stabilizer_indices, repSelf, repFields, ha, hb, h1, hr, broadcastL, List.range'_eq_map_range]
-    · have h1 : k.nr = 1 := by simpa using hb
-      py_simp [RepKernel_stabilizer_indices, repSelf, repFields, ha, h1]
-  · py_simp [RepKernel_stabilizer_indices, repSelf, repFields, ha]
-
-set_option maxRecDepth 8000 in
-theorem rep_contains_matches_source (k : RepKernel) (e : QId) :
-    callFn (elemMethods e) RepKernel_contains [repSelfE k e, .int e] = ints (k.contains e) := by
-  py_simp [RepKernel_contains, repSelfE, repFields, elemMethods, RepKernel.contains, sortInts_eq]
-
-theorem kernel_length_matches_source_rep (k : RepKernel) :
-    callFn {} IIndexingKernel_kernel_length [repSelf k] = .int k.kernelLength := by
-  py_simp [IIndexingKernel_kernel_length, repSelf, repFields, RepKernel.kernelLength]
-
-theorem cal_start_index_matches_source (c : CalKernel) :
-    callFn fieldMethods CalKernel_start_index [calSelf c] = .int c.startIndex := by
-  cases hs : c.strategy <;>
-  py_simp [CalKernel_start_index, calSelf, calFields, fieldMethods, strategyObj, CalKernel.startIndex, hs]
-
-theorem cal_exclusive_start_matches_source (c : CalKernel) :
-    callFn {} CalKernel_exclusive_start_index [calSelf c] = .int c.exclStart := by
-  py_simp [CalKernel_exclusive_start_index, calSelf, calFields, CalKernel.exclStart]
-
-theorem cal_delta_heralded_matches_source (c : CalKernel) :
-    callFn {} CalKernel_delta_heralded [calSelf c] = .int c.dHer := by
-  cases h : c.heralded <;> py_simp [CalKernel_delta_heralded, calSelf, calFields, CalKernel.dHer, h]
-
-theorem cal_delta_states_match_source (c : CalKernel) :
-    callFn {} CalKernel_delta_state_0 [calSelf c] = .int c.d0 ∧
-    callFn {} CalKernel_delta_state_1 [calSelf c] = .int c.d1 ∧
-    callFn {} CalKernel_delta_state_2 [calSelf c] = .int c.d2 := by
-  refine ⟨?_, ?_, ?_⟩
-  · py_simp [CalKernel_delta_state_0, calSelf, calFields, CalKernel.d0]
-  · py_simp [CalKernel_delta_state_1, calSelf, calFields, CalKernel.d1]
-  · py_simp [CalKernel_delta_state_2, calSelf, calFields, CalKernel.d2]
-
-theorem cal_stop_index_matches_source (c : CalKernel) :
-    callFn {} CalKernel_stop_index [calSelf c] = .int c.stopIndex := by
-  py_simp [CalKernel_stop_index, calSelf, calFields, CalKernel.stopIndex]
-
-theorem cal_heralded_states_match_source (c : CalKernel) (e : QId) :
-    callFn {} CalKernel_heralded_state_0 [calSelf c, .int e] = ints (c.heralded0 e) ∧
-    callFn {} CalKernel_heralded_state_1 [calSelf c, .int e] = ints (c.heralded1 e) ∧
-    callFn {} CalKernel_heralded_state_2 [calSelf c, .int e] = ints (c.heralded2 e) := by
-  unfold CalKernel.heralded0 CalKernel.heralded1 CalKernel.heralded2 CalKernel.heraldedGuard
-  refine ⟨?_, ?_, ?_⟩
-  · cases h : c.heralded <;> by_cases hm : e ∈ c.ids <;>
-      py_simp [CalKernel_heralded_state_0, calSelf, calFields, h, hm]
-  · cases h : c.heralded <;> by_cases hm : e ∈ c.ids <;>
-      py_simp [CalKernel_heralded_state_1, calSelf, calFields, h, hm]
-  · cases h : c.heralded <;> by_cases hm : e ∈ c.ids <;>
-      py_simp [CalKernel_heralded_state_2, calSelf, calFields, h, hm]
-
-theorem cal_states_match_source (c : CalKernel) (e : QId) :
-    callFn {} CalKernel_state_0 [calSelf c, .int e] = ints (c.state0 e) ∧
-    callFn {} CalKernel_state_1 [calSelf c, .int e] = ints (c.state1 e) ∧
-    callFn {} CalKernel_state_2 [calSelf c, .int e] = ints (c.state2 e) := by
-  unfold CalKernel.state0 CalKernel.state1 CalKernel.state2 CalKernel.stateGuard
-  refine ⟨?_, ?_, ?_⟩
-  · by_cases hm : e ∈ c.ids <;> py_simp [CalKernel_state_0, calSelf, calFields, hm]
-  · by_cases hm : e ∈ c.ids <;> py_simp [CalKernel_state_1, calSelf, calFields, hm]
-  · by_cases hm : e ∈ c.ids <;> py_simp [CalKernel_state_2, calSelf, calFields, hm]
-
-theorem cal_contains_matches_source (c : CalKernel) (e : QId) :
-    callFn (elemMethods e) CalKernel_contains [calSelfE c e, .int e] = ints (c.contains e) := by
-  py_simp [CalKernel_contains, calSelfE, calFields, elemMethods, CalKernel.contains, sortInts_eq]
-
-theorem kernel_length_matches_source_cal (c : CalKernel) :
-    callFn {} IIndexingKernel_kernel_length [calSelf c] = .int c.kernelLength := by
-  py_simp [IIndexingKernel_kernel_length, calSelf, calFields, CalKernel.kernelLength]
-
-theorem exp_repetitions_matches_source (K : ExpKernel) (e : QId) :
-    callFn {} ExpKernel_experiment_repetitions [expSelf K e] = .int K.reps := by
-  py_simp [ExpKernel_experiment_repetitions, expSelf, expFields]
-
-/-- `indexing_kernels[0].start_index` (the constructor guarantees a non-empty kernel list). -/
-theorem exp_start_index_matches_source (K : ExpKernel) (e : QId) (hne : K.indexingKernels ≠ []) :
-    callFn {} ExpKernel_start_index [expSelf K e] = .int K.startIndex := by
-  unfold ExpKernel.startIndex
-  cases hk : K.indexingKernels with
-  | nil => exact absurd hk hne
-  | cons k rest =>
-    have h0 := indexVal_map_zero ikVal k rest
-    have hv : Vars.get (bindParams ExpKernel_start_index.params [expSelf K e] []) "self" = expSelf K e := by
-      simp [ExpKernel_start_index, bindParams, Vars.get, Vars.set]
-    simp only [callFn, ExpKernel_start_index, execBlock, exec, eval] at hv ⊢
-    simp only [hv, expSelf_indexing, hk, h0, ikVal_start]
-    simp
-
-theorem exp_cycle_length_matches_source (K : ExpKernel) (e : QId) (hne : K.indexingKernels ≠ []) :
-    callFn {} ExpKernel_kernel_cycle_length [expSelf K e] = .int K.cycleLength := by
-  unfold ExpKernel.cycleLength ExpKernel.lastStopIndex ExpKernel.startIndex
-  cases hk : K.indexingKernels with
-  | nil => exact absurd hk hne
-  | cons k rest =>
-    obtain ⟨lst, hl⟩ : ∃ lst, (k :: rest).getLast? = some lst := ⟨_, List.getLast?_eq_some_getLast (by simp)⟩
-    have h0 := indexVal_map_zero ikVal k rest
-    have h1 := indexVal_map_last ikVal (k :: rest) lst hl
-    have hv : Vars.get (bindParams ExpKernel_kernel_cycle_length.params [expSelf K e] []) "self" = expSelf K e := by
-      simp [ExpKernel_kernel_cycle_length, bindParams, Vars.get, Vars.set]
-    simp only [callFn, ExpKernel_kernel_cycle_length, execBlock, exec, eval] at hv ⊢
-    simp only [hv, expSelf_indexing, hk, h0, h1, ikVal_start, ikVal_stop, hl]
-    simp [evalBin, Val.asInt?, intBin, Val.isErr, Vars.get, Vars.set]
-
-theorem exp_stop_index_matches_source (K : ExpKernel) (e : QId) :
-    callFn {} ExpKernel_stop_index [expSelf K e] = .int K.stopIndex := by
-  py_simp [ExpKernel_stop_index, expSelf, expFields, ExpKernel.stopIndex]
-
-/-- the list the source builds holds the kernels' objects for element `e` (the calibration kernel iff the flag). -/
-theorem exp_indexing_kernels_matches_source (K : ExpKernel) (e : QId) :
-    callFn {} ExpKernel_indexing_kernels [expSelf K e] =
-      .list (K.repKernels.map (fun k => repSelfE k e) ++ (if K.qutrit then [calSelfE K.calKernel e] else [])) := by
-  cases h : K.qutrit <;> py_simp [ExpKernel_indexing_kernels, expSelf, expFields, h]
-
-theorem exp_heralded_cycle_matches_source (K : ExpKernel) (e : QId) (count : Nat) :
-    callFn (expEnv e) ExpKernel_heralded_cycle [expSelf K e, .int e, .int count] = cycleVal (K.heraldedCycle e count) := by
-  have L := cycle_loop e count
-    [.ifs (.cmp .eq (.attr (.name "repetition_kernel") "nr_repeated_parities") (.name "cycle_stabilizer_count"))
-      [.assign "heralded_indices" (.mcall (.name "repetition_kernel") "get_heralded_measurement_index" [.name "qubit_id"]),
-       .ret (.mcall (.name "self") "create_sliced_arrays" [.name "heralded_indices", .attr (.name "self") "kernel_cycle_length", .attr (.name "self") "experiment_repetitions"])] []]
-    (fun k => arr2 (slicedArrays (k.heraldedIdx e) K.cycleLength K.reps))
-    (bindParams ExpKernel_heralded_cycle.params [expSelf K e, .int e, .int count] [])
-    (by
-      intro k
-      cases hk : (k.nr == count) <;>
-      py_simp [ExpKernel_heralded_cycle, expEnv, expSelf, expFields, repSelfE, repFields, hk])
-    K.repKernels _ (fun _ => rfl)
-  have hiter : (eval (expEnv e) (bindParams ExpKernel_heralded_cycle.params [expSelf K e, .int e, .int count] [])
-      (.attr (.name "self") "_repetition_kernels")).elems? = some (K.repKernels.map (fun k => repSelfE k e)) := by
-    py_simp [ExpKernel_heralded_cycle, expSelf, expFields]
-  unfold ExpKernel.heraldedCycle ExpKernel.findKernel
-  have hbodyEq : ExpKernel_heralded_cycle.body = [.for_ "repetition_kernel" (.attr (.name "self") "_repetition_kernels")
-      [.ifs (.cmp .eq (.attr (.name "repetition_kernel") "nr_repeated_parities") (.name "cycle_stabilizer_count"))
-      [.assign "heralded_indices" (.mcall (.name "repetition_kernel") "get_heralded_measurement_index" [.name "qubit_id"]),
-       .ret (.mcall (.name "self") "create_sliced_arrays" [.name "heralded_indices", .attr (.name "self") "kernel_cycle_length", .attr (.name "self") "experiment_repetitions"])] []], .ret (.call "np.asarray" [.list []])] := rfl
-  have harity : (ExpKernel_heralded_cycle.params.length != [expSelf K e, Val.int ↑e, Val.int ↑count].length) = false := rfl
-  unfold callFn
-  rw [harity, hbodyEq, execBlock_for _ _ _ _ _ _ _ hiter]
-  cases hf : K.repKernels.find? (fun k => k.nr == count) with
-  | none =>
-    rw [hf] at L
-    obtain ⟨vs'', hv⟩ := L
-    rw [hv]
-    py_simp [cycleVal]
-  | some k =>
-    rw [hf] at L
-    rw [L]
-    simp [cycleVal]
-
-theorem exp_stabilizer_and_projected_cycle_matches_source (K : ExpKernel) (e : QId) (count : Nat) :
-    callFn (expEnv e) ExpKernel_stabilizer_and_projected_cycle [expSelf K e, .int e, .int count] = cycleVal (K.stabilizerAndProjectedCycle e count) := by
-  have L := cycle_loop e count
-    [.ifs (.cmp .eq (.attr (.name "repetition_kernel") "nr_repeated_parities") (.name "cycle_stabilizer_count"))
-      [.assign "stabilizer_measurement_indices" (.mcall (.name "repetition_kernel") "get_ordered_stabilizer_measurement_indices" [.name "qubit_id"]),
-       .assign "final_measurement_indices" (.mcall (.name "repetition_kernel") "get_final_measurement_index" [.name "qubit_id"]),
-       .ret (.mcall (.name "self") "create_sliced_arrays" [.bin .add (.name "stabilizer_measurement_indices") (.name "final_measurement_indices"), .attr (.name "self") "kernel_cycle_length", .attr (.name "self") "experiment_repetitions"])] []]
-    (fun k => arr2 (slicedArrays (k.stabIdx e ++ k.finalIdx e) K.cycleLength K.reps))
-    (bindParams ExpKernel_stabilizer_and_projected_cycle.params [expSelf K e, .int e, .int count] [])
-    (by
-      intro k
-      cases hk : (k.nr == count) <;>
-      py_simp [ExpKernel_stabilizer_and_projected_cycle, expEnv, expSelf, expFields, repSelfE, repFields, hk])
-    K.repKernels _ (fun _ => rfl)
-  have hiter : (eval (expEnv e) (bindParams ExpKernel_stabilizer_and_projected_cycle.params [expSelf K e, .int e, .int count] [])
-      (.attr (.name "self") "_repetition_kernels")).elems? = some (K.repKernels.map (fun k => repSelfE k e)) := by
-    py_simp [ExpKernel_stabilizer_and_projected_cycle, expSelf, expFields]
-  unfold ExpKernel.stabilizerAndProjectedCycle ExpKernel.findKernel
-  have hbodyEq : ExpKernel_stabilizer_and_projected_cycle.body = [.for_ "repetition_kernel" (.attr (.name "self") "_repetition_kernels")
-      [.ifs (.cmp .eq (.attr (.name "repetition_kernel") "nr_repeated_parities") (.name "cycle_stabilizer_count"))
-      [.assign "stabilizer_measurement_indices" (.mcall (.name "repetition_kernel") "get_ordered_stabilizer_measurement_indices" [.name "qubit_id"]),
-       .assign "final_measurement_indices" (.mcall (.name "repetition_kernel") "get_final_measurement_index" [.name "qubit_id"]),
-       .ret (.mcall (.name "self") "create_sliced_arrays" [.bin .add (.name "stabilizer_measurement_indices") (.name "final_measurement_indices"), .attr (.name "self") "kernel_cycle_length", .attr (.name "self") "experiment_repetitions"])] []], .ret (.call "np.asarray" [.list []])] := rfl
-  have harity : (ExpKernel_stabilizer_and_projected_cycle.params.length != [expSelf K e, Val.int ↑e, Val.int ↑count].length) = false := rfl
-  unfold callFn
-  rw [harity, hbodyEq, execBlock_for _ _ _ _ _ _ _ hiter]
-  cases hf : K.repKernels.find? (fun k => k.nr == count) with
-  | none =>
-    rw [hf] at L
-    obtain ⟨vs'', hv⟩ := L
-    rw [hv]
-    py_simp [cycleVal]
-  | some k =>
-    rw [hf] at L
-    rw [L]
-    simp [cycleVal]
-
-theorem exp_projected_cycle_matches_source (K : ExpKernel) (e : QId) (count : Nat) :
-    callFn (expEnv e) ExpKernel_projected_cycle [expSelf K e, .int e, .int count] = cycleVal (K.projectedCycle e count) := by
-  have L := cycle_loop e count
-    [.ifs (.cmp .eq (.attr (.name "repetition_kernel") "nr_repeated_parities") (.name "cycle_stabilizer_count"))
-      [.assign "final_measurement_indices" (.mcall (.name "repetition_kernel") "get_final_measurement_index" [.name "qubit_id"]),
-       .ret (.mcall (.name "self") "create_sliced_arrays" [.name "final_measurement_indices", .attr (.name "self") "kernel_cycle_length", .attr (.name "self") "experiment_repetitions"])] []]
-    (fun k => arr2 (slicedArrays (k.finalIdx e) K.cycleLength K.reps))
-    (bindParams ExpKernel_projected_cycle.params [expSelf K e, .int e, .int count] [])
-    (by
-      intro k
-      cases hk : (k.nr == count) <;>
-      py_simp [ExpKernel_projected_cycle, expEnv, expSelf, expFields, repSelfE, repFields, hk])
-    K.repKernels _ (fun _ => rfl)
-  have hiter : (eval (expEnv e) (bindParams ExpKernel_projected_cycle.params [expSelf K e, .int e, .int count] [])
-      (.attr (.name "self") "_repetition_kernels")).elems? = some (K.repKernels.map (fun k => repSelfE k e)) := by
-    py_simp [ExpKernel_projected_cycle, expSelf, expFields]
-  unfold ExpKernel.projectedCycle ExpKernel.findKernel
-  have hbodyEq : ExpKernel_projected_cycle.body = [.for_ "repetition_kernel" (.attr (.name "self") "_repetition_kernels")
-      [.ifs (.cmp .eq (.attr (.name "repetition_kernel") "nr_repeated_parities") (.name "cycle_stabilizer_count"))
-      [.assign "final_measurement_indices" (.mcall (.name "repetition_kernel") "get_final_measurement_index" [.name "qubit_id"]),
-       .ret (.mcall (.name "self") "create_sliced_arrays" [.name "final_measurement_indices", .attr (.name "self") "kernel_cycle_length", .attr (.name "self") "experiment_repetitions"])] []], .ret (.call "np.asarray" [.list []])] := rfl
-  have harity : (ExpKernel_projected_cycle.params.length != [expSelf K e, Val.int ↑e, Val.int ↑count].length) = false := rfl
-  unfold callFn
-  rw [harity, hbodyEq, execBlock_for _ _ _ _ _ _ _ hiter]
-  cases hf : K.repKernels.find? (fun k => k.nr == count) with
-  | none =>
-    rw [hf] at L
-    obtain ⟨vs'', hv⟩ := L
-    rw [hv]
-    py_simp [cycleVal]
-  | some k =>
-    rw [hf] at L
-    rw [L]
-    simp [cycleVal]
-
-/-- key of a calibration state as the enum constant of the source. -/
-def stateVal : StateKey → Val
-  | .s0 => .enum "StateKey" "STATE_0"
-  | .s1 => .enum "StateKey" "STATE_1"
-  | .s2 => .enum "StateKey" "STATE_2"
-
-/-- the two calibration getters (guard on the flag, dispatch on the state key, `create_sliced_array`). -/
-theorem exp_projected_calibration_matches_source (K : ExpKernel) (e : QId) (s : StateKey) :
-    callFn (expEnv e) ExpKernel_projected_calibration [expSelf K e, .int e, stateVal s] =
-      .arr ((K.projectedCalibration e s).map Val.int) := by
-  unfold ExpKernel.projectedCalibration CalKernel.projectedState
-  cases hq : K.qutrit <;> cases s <;>
-  py_simp [ExpKernel_projected_calibration, expEnv, expSelf, expFields, calSelfE, calFields, stateVal, hq]
-
-theorem exp_heralded_calibration_matches_source (K : ExpKernel) (e : QId) (s : StateKey) :
-    callFn (expEnv e) ExpKernel_heralded_calibration [expSelf K e, .int e, stateVal s] =
-      .arr ((K.heraldedCalibration e s).map Val.int) := by
-  unfold ExpKernel.heraldedCalibration CalKernel.heraldedState
-  cases hq : K.qutrit <;> cases s <;>
-  py_simp [ExpKernel_heralded_calibration, expEnv, expSelf, expFields, calSelfE, calFields, stateVal, hq]
-
-/-- the decorators of the translated members are the ones the model assumes (`property` for the attributes read without call). -/
-theorem kernel_members_decorators :
-    RepKernel_stop_index.decorators = ["property"] ∧ RepKernel_start_index.decorators = ["property"] ∧
-    CalKernel_stop_index.decorators = ["property"] ∧ ExpKernel_kernel_cycle_length.decorators = ["property"] ∧
-    ExpKernel_stop_index.decorators = ["property"] ∧ RepKernel_contains.decorators = [] ∧
-    ExpKernel_heralded_cycle.decorators = [] := by decide
-
-end SourceTie
 
 end Qco.C12
